@@ -115,7 +115,10 @@ class DataArray:
 
     @property
     def variable(self):
-        return self
+        # xarray.Variable: dims + data + attrs, no attached coordinates (shares the data)
+        out = _copy.copy(self)
+        out._coords = {}
+        return out
 
     @property
     def dims(self):
